@@ -445,6 +445,128 @@ def equivalent_twice_fn(e):
                  tok.b.r_b is r_b, tok.grout is grout, grout.k == 1.0, a.grout is not b.grout])
 
 
+# -- (7) long-time g-function computation: no state may survive between two computations -------------------------------------
+GFV = z3.Function('GFV', *([z3.RealSort()] * 15), z3.RealSort())
+# field -> (lo, hi, value used when the field is concrete in a variant); only quantities the real g-function depends on
+GF_FIELDS = {'k_g': (0.5, 3.0, 1.0), 'k_s': (1.0, 4.0, 2.0), 'rhocp_s': (1.5e6, 3.0e6, 2343493.0), 'k_p': (0.2, 1.0, 0.4), 'cp_f': (3000.0, 4500.0, 4182.0),
+             'mu_f': (5.0e-4, 5.0e-3, 1.0e-3), 'm_flow': (0.1, 1.0, 0.3), 'r_b': (0.06, 0.1, 0.075), 'depth': (1.0, 5.0, 2.0)}
+GF_VARIANTS = {'all': set(GF_FIELDS), 'media': {'k_g', 'k_p', 'cp_f', 'mu_f'}, 'soil_k': {'k_s', 'k_g'}, 'flow_geometry': {'m_flow', 'r_b', 'depth'}}
+
+
+def gfcalc_setup():
+    import ghedesigner.gfunction as GFM
+    import pygfunction as gt
+
+    def bhe_token(bhe_type, m_flow, fluid, bh, pipe, grout, soil):
+        return NS(kind=bhe_type, m_flow=m_flow, fluid=fluid, b=bh, pipe=pipe, grout=grout, soil=soil)
+
+    def network(bore_field, bhes, m_flow_network=None, cp_f=None):
+        return NS(field=bore_field, bhes=bhes, m_flow_network=m_flow_network, cp_f=cp_f)
+
+    class GFun:
+        """pygfunction.gfunction.gFunction by contract: a function of everything it is handed (the field, the pipe models built for
+        this call and what they reference *at the time of the call*, diffusivity, times, boundary condition, options)"""
+
+        def __init__(self, net, alpha, time=None, boundary_condition=None, options=None, method=None):
+            bh0, bhe0 = net.field[0], net.bhes[0]
+            geo = sum((i + 1) * (13.0 * b.x + 7.0 * b.y) for i, b in enumerate(net.field)) + 1000.0 * len(net.field)   # concrete fingerprint of the layout
+            args = [bh0.H, bh0.D, bh0.r_b, alpha, net.m_flow_network, net.cp_f, bhe0.grout.k, bhe0.soil.k, bhe0.pipe.k, bhe0.fluid.mu,
+                    bhe0.m_flow, geo, float(options['nSegments']), float(len(str(boundary_condition)) + 10 * len(str(method)))]
+            self.gFunc = NS(tolist=lambda: [Sym(GFV(*[_r(a) for a in args], _r(t))) for t in list(time)])
+
+    def borehole(H, D, r_b, x, y, tilt=0.0, orientation=0.0):      # pygfunction's Borehole is a plain record (it only coerces to float)
+        return NS(H=H, D=D, r_b=r_b, x=x, y=y, tilt=tilt, orientation=orientation)
+    shadow(GFM, 'GHEBorehole', borehole)
+    shadow(GFM, 'get_bhe_object', bhe_token)
+    shadow(GFM, 'gt', NS(networks=NS(Network=network), gfunction=NS(gFunction=GFun), utilities=gt.utilities))
+
+
+def _gf_values(get, tag, symbolic):
+    return {f: (get('%s_%s' % (f, tag), lo, hi) if f in symbolic else dflt) for f, (lo, hi, dflt) in GF_FIELDS.items()}
+
+
+def _gf_objects(v):
+    from ghedesigner.media import Grout, Pipe, Soil
+    fluid = NS(cp=v['cp_f'], mu=v['mu_f'], rho=998.0, k=0.6)
+    pipe = Pipe(Pipe.place_pipes(0.0323, 0.0133, 1), 0.0108, 0.0133, 0.0323, 1e-6, v['k_p'], 1542000.0)
+    return dict(fluid=fluid, pipe=pipe, grout=Grout(v['k_g'], 3901000.0), soil=Soil(v['k_s'], v['rhocp_s'], 18.3))
+
+
+GF_COORDS = [(0.0, 0.0), (5.0, 0.0), (0.0, 5.0)]
+GF_HEIGHTS = [60.0, 100.0]
+
+
+def gfcalc_fn(n_prior, variant):
+    symbolic = GF_VARIANTS[variant]
+
+    def fn(e):
+        """n_prior earlier computations with other configurations, then the one under test; every value must be the contract function of
+        the *current* call's inputs (recomputed here independently)"""
+        import numpy
+
+        import ghedesigner.gfunction as GFM
+        from ghedesigner.enums import BHPipeType
+        log_time = [-8.5, -2.0, 3.0]
+        tags = ['h%d' % i for i in range(n_prior)] + ['now']
+        vals = [_gf_values(e.real, t, symbolic) for t in tags]
+        out = None
+        for v in vals:
+            o = _gf_objects(v)
+            out = GFM.calc_g_func_for_multiple_lengths(5.0, GF_HEIGHTS, v['r_b'], v['depth'], v['m_flow'], BHPipeType.SINGLEUTUBE, log_time, GF_COORDS,
+                                                       o['fluid'], o['pipe'], o['grout'], o['soil'])
+        v = vals[-1]
+        # counterexamples that survive the native replay: configurations that differ by a margin
+        pref = []
+        for f in sorted(symbolic):
+            lo, hi, _ = GF_FIELDS[f]
+            a, b = _r(vals[0][f]), _r(v[f])
+            pref.append(z3.Or(a - b >= _r(0.2 * (hi - lo)), b - a >= _r(0.2 * (hi - lo))))
+        e.prefer = pref
+        cs = []
+        geo = sum((i + 1) * (13.0 * x + 7.0 * y) for i, (x, y) in enumerate(GF_COORDS)) + 1000.0 * len(GF_COORDS)
+        for h in GF_HEIGHTS:
+            alpha = v['k_s'] / v['rhocp_s']
+            ts = h ** 2 / (9.0 * alpha)
+            exp_vals = []
+            for lt in log_time:
+                args = [h, v['depth'], v['r_b'], alpha, len(GF_COORDS) * v['m_flow'], v['cp_f'], v['k_g'], v['k_s'], v['k_p'], v['mu_f'], v['m_flow'],
+                        geo, 8.0, float(len('MIFT') + 10 * len('equivalent'))]
+                exp_vals.append(Sym(GFV(*[_r(a) for a in args], _r(float(numpy.exp(lt)) * ts))))
+            got = out.g_lts[h]
+            cs.append(len(got) == len(exp_vals))
+            cs += [g == x for g, x in zip(got, exp_vals)]
+            cs.append(out.r_b_values[h] is v['r_b'] or out.r_b_values[h] == v['r_b'])
+        return conj(cs)
+    return fn
+
+
+def gfcalc_replay(n_prior, variant):
+    symbolic = GF_VARIANTS[variant]
+
+    def replay(model, notes):
+        """native: real pygfunction; the history in this process, then the module reloaded (fresh state) and the last computation alone"""
+        restore_shadows()
+        import importlib
+        import warnings
+        warnings.simplefilter('ignore')
+        import ghedesigner.gfunction as GFM
+        from ghedesigner.enums import BHPipeType
+        from ghedesigner.utilities import eskilson_log_times
+
+        def run(mod, tag):
+            v = _gf_values(lambda name, lo, hi: min(max(float(model[name]), lo), hi), tag, symbolic)
+            o = _gf_objects(v)
+            gf = mod.calc_g_func_for_multiple_lengths(5.0, GF_HEIGHTS, v['r_b'], v['depth'], v['m_flow'], BHPipeType.SINGLEUTUBE, eskilson_log_times(), GF_COORDS,
+                                                      o['fluid'], o['pipe'], o['grout'], o['soil'])
+            return {h: list(vs) for h, vs in gf.g_lts.items()}
+        last = None
+        for tag in ['h%d' % i for i in range(n_prior)] + ['now']:
+            last = run(GFM, tag)
+        fresh = run(importlib.reload(GFM), 'now')
+        return last != fresh, dict(after_history={h: v[:3] for h, v in last.items()}, fresh={h: v[:3] for h, v in fresh.items()})
+    return replay
+
+
 def units(tier, seed):
     rnd = random.Random(seed)
     F1 = ['ground_heat_exchangers.py:GHE.simulate', 'ground_heat_exchangers.py:GHE.size', 'utilities.py:solve_root']
@@ -477,6 +599,13 @@ def units(tier, seed):
     us.append(Unit('mutable_defaults', defaults_fn, None, defaults_setup, ['domains.py:polygonal_land_constraint', 'design.py:DesignBiRectangleConstrained.__init__'],
                    'two successive calls with the default keep_contour; b_min all reals in [5,8]'))
     from . import c15
+    for n_prior, variant in [(1, 'all'), (1, 'media'), (1, 'soil_k'), (1, 'flow_geometry'), (2, 'media')]:
+        us.append(Unit('gfunction_computation_%s_after_%d_other' % (variant, n_prior), gfcalc_fn(n_prior, variant), gfcalc_replay(n_prior, variant), gfcalc_setup,
+                       ['gfunction.py:calc_g_func_for_multiple_lengths', 'gfunction.py:calculate_g_function', 'gfunction.py:GFunction.__init__'],
+                       '%d earlier computation(s) differing in %s (all reals in their physical ranges; everything else concrete and equal), then the one under test; '
+                       '3-borehole field, 2 heights, 3 times' % (n_prior, sorted(GF_VARIANTS[variant])),
+                       ['floats as reals'], ['pygfunction Network / gFunction / pipe-model factory / Borehole record -> contract: uninterpreted function GFV of every input of the current call'],
+                       max_seconds=300))
     us.append(Unit('equivalent_tube_twice', equivalent_twice_fn, None, c15.setup, ['borehole_heat_exchangers.py:GHEDesignerBoreholeWithMultiplePipes.equivalent_single_u_tube'],
                    'double-U radii symbolic; conversion applied twice to one object'))
     return us
